@@ -143,7 +143,7 @@ class C04(E2EProp):
     id = "C04"
     cone = ["Properties/C04.vo"]
     prop_file = "Properties/C04.v"
-    theorems = ["C04_escape_decodable", "C04_escape_injective", "C04_specials_only_in_escape_forms", "C04_escape_is_rune_by_rune", "C04_escape_compositional", "C04_escaped_text_is_brace_neutral", "C04_url_is_brace_neutral", "C04_headers_balanced_partial", "C04_inline_titles_balanced"]
+    theorems = ["C04_escape_decodable", "C04_escape_injective", "C04_specials_only_in_escape_forms", "C04_escape_is_rune_by_rune", "C04_escape_compositional", "C04_escaped_text_is_brace_neutral", "C04_url_is_brace_neutral", "C04_headers_balanced_partial", "C04_inline_titles_balanced", "C04_url_table_is_the_source", "C04_tex_guards_are_the_source"]
     partial = ["C04 balance half is proved for the sub-language of Proofs/FragHL.v (text, Bm/Em/Sm, P with title, D, Lk with any url, Bd/Ed at any depth, headers, Tc; fragment mode) against the brace machine of Proofs/TokL.v, which does not read environments; lists, tables, verse, images, user macros and the standalone preamble are tied by S-e2e bytes and searched by the TeX balance oracle"]
     oracle = staticmethod(oracles.c04_oracle)
     assumptions = ["escape.LaTeX = strings.Replacer over latexEscapes = Repl.enc latex_table (translator checks the shape of escape.go; stream S-esc-latex)",
@@ -372,7 +372,7 @@ class C02(E2EProp):
     id = "C02"
     cone = ["Properties/C02.vo"]
     prop_file = "Properties/C02.v"
-    theorems = ["C02_headers_balanced_partial", "C02_inline_titles_balanced", "C02_toc_writer_balanced", "C02_text_keeps_invariant", "C02_Bm_keeps_invariant", "C02_Em_keeps_invariant", "C02_Sm_keeps_invariant", "C02_P_keeps_invariant", "D4_D5_D6_D16_D17_D18_D19_D21_D22", "D7_known_refuted"]
+    theorems = ["C02_headers_balanced_partial", "C02_inline_titles_balanced", "C02_toc_writer_balanced", "C02_text_keeps_invariant", "C02_Bm_keeps_invariant", "C02_Em_keeps_invariant", "C02_Sm_keeps_invariant", "C02_P_keeps_invariant", "D4_D5_D6_D16_D17_D18_D19_D21_D22", "D7_known_refuted", "C02_guards_are_the_source"]
     partial = ["C02_full is stated against Spec/Xml.wf_xml; proved: element balance (tag machine of Proofs/Tok.v, weaker than XML well-formedness) of the whole output for the sub-language of Proofs/FragH.v in fragment, standalone, multi-file and EPUB mode (every file written - index page, one page per part and chapter with header, navigation bars and footer, the EPUB package files - is balanced; Proofs/Multi.v), of processInlineMacros, of the TOC writer (XHTML, EPUB nav, NCX) and of the EPUB package files (C14); lists, tables, verse, images, cross-references, user macros and the standalone/multi-file/EPUB page skeletons are tied by S-e2e bytes and searched by the strict XML oracle; the list-of-X writer is the known finding D7"]
     oracle = staticmethod(oracles.c02_oracle)
     assumptions = ["XHTML/EPUB exporter = Model/Xhtml.v through Model/Loop.compile_source (S-e2e bytes of every generated file)"]
